@@ -347,6 +347,12 @@ def mon_c12(cfg, steps):
             elif now_s < nom[1] + 604800:
                 out.append({"step": s.idx, "what": "AcceptOwnership succeeded %d s after the nomination (7 days = 604800 s)" % (now_s - nom[1])})
             admin = new_admin
+        if s.res == "ok" and k == "accept_own":
+            # acceptance consumes the nomination: it needs one, made for the caller, old enough
+            if nom is None or nom[0] != who:
+                out.append({"step": s.idx, "what": "AcceptOwnership succeeded for %s although the standing nomination is %r" % (who, nom)})
+            elif now_s < nom[1] + 604800:
+                out.append({"step": s.idx, "what": "AcceptOwnership succeeded %d s after the nomination (7 days = 604800 s)" % (now_s - nom[1])})
         if s.res == "ok":
             if k == "xfer_own":
                 if who != admin:
@@ -490,6 +496,10 @@ def mon_c06(cfg, steps):
                         out.append({"step": s.idx, "what": "batch %d became received by %s from %s" % (k, " ".join(t[5:7]) if t[0] == "exec" else t[0], who)})
                     elif b["status"] != "submitted" or b["time"] is None or now_s < b["time"]:
                         out.append({"step": s.idx, "what": "batch %d became received at %d, its unbonding deadline is %s (status before: %s)" % (k, now_s, b["time"], b["status"])})
+                    else:
+                        paid = [a for d, a in funds_of(t[4]) if d == pre["protocol"]["denom"]]
+                        if not paid or nb["received"] != paid[0]:
+                            out.append({"step": s.idx, "what": "batch %d became received (%s) without a matching payment in the staked asset: funds %r" % (k, nb["received"], funds_of(t[4]))})
         if t[0] == "exec" and t[5] == "submit" and s.res in ("ok", "err"):
             p = pre["pending"]; b = pre["batches"].get(p)
             if b is None:
@@ -949,8 +959,36 @@ def mg_view(s):
     return d
 
 
+def semver_full(v):
+    """(core tuple, has_prerelease, has_build) of a semver string, None when it does not parse"""
+    m = _re.fullmatch(r"(0|[1-9][0-9]*)\.(0|[1-9][0-9]*)\.(0|[1-9][0-9]*)(-[0-9A-Za-z.-]+)?(\+[0-9A-Za-z.-]+)?", v)
+    if not m:
+        return None
+    return (tuple(int(x) for x in m.groups()[:3]), m.group(4) is not None, m.group(5) is not None)
+
+
+def mon_c18_treasury(steps, out):
+    """the treasury migration is a pure gate: same contract name, stored version strictly older than the installed one"""
+    installed = None
+    for s in steps:
+        t = s.optoks
+        if t[0] == "tinst" and s.res == "ok":
+            for o in s.lines:
+                if o[0] == "ts.ver":
+                    installed = (unhex(o[1]).decode("utf-8", "replace"), unhex(o[2]).decode("utf-8", "replace"))
+        if t[0] == "tmig" and installed is not None and s.res == "ok":
+            name = unhex(t[1]).decode("utf-8", "replace"); ver = unhex(t[2]).decode("utf-8", "replace")
+            a = semver_full(ver); b = semver_full(installed[1])
+            older = a is not None and b is not None and (a[0] < b[0] or (a[0] == b[0] and a[1] and not b[1]))
+            if name != installed[0]:
+                out.append({"step": s.idx, "what": "treasury migration succeeded for stored contract name %r" % name})
+            elif not older:
+                out.append({"step": s.idx, "what": "treasury migration succeeded from stored version %r, which is not strictly older than %s" % (ver, installed[1])})
+
+
 def mon_c18(cfg, steps):
     out = []
+    mon_c18_treasury(steps, out)
     prev = None; prev_snap = None
     FROM = {"v0418": "0.4.18", "v0420": "0.4.20", "v100": "1.0.0"}
     stack = []
